@@ -22,11 +22,21 @@ CHECKS = {
     'C14': dict(engine='tlc-eaomodel', technique=P_TECH + '; TLC refinement invariant SplitRefinesUnsplit', cat='model_checking', ref='DESIGN.md 4 (C14)',
                 text='The split model (cfg.split: storages reset per interval, take periods prorated per interval) is enumerated by TLC; the invariant SplitRefinesUnsplit replays every complete split behaviour under the unsplit configuration (same value, no guard violated) for families coupled only through start=end storages. Behaviours are replayed into the block-diagonal problem of setup_split_optim_problem, the split run is trace-validated on the ORIGINAL grid, value = sum of interval optima, equality/inequality against the unsplit optimum per coupling class, several main time units.',
                 note=P_NOTE),
+    'C06': dict(engine='tlc-unitcommit', technique='TLC enumeration of the unit-commitment automaton (EAOUnitCommit) + exhaustive 2^T pattern comparison against the real Plant/CHP MIP (HiGHS) + behaviour replay + TLC trace validation of optimised runs', cat='model_checking', ref='DESIGN.md 4 (C06)',
+                text='TLC enumerates every reachable on/off pattern with candidate outputs of the runtime/downtime automaton for all (min runtime, min downtime, initial state) tuples (invariants MinRunInv, MinDownInv, StartInv, OffZeroInv); every one of the 2^T patterns is pinned in the real Plant problem: feasible <=> reachable; strict behaviours are replayed (value incl. start/running costs, fuel drawn per step), near-misses of every guard (min_run, min_down, off_output, cap, ramp, start_flag_missing, heat_share) must be infeasible; optimised runs (SCIP, default solver) are validated step by step by Trace_EAOUnitCommit.',
+                note='Bounded: T<=6 quick / <=8 thorough, integer data, equal step lengths, consistent declared initial state, elapsed durations multiples of the step; start/shutdown ramp profiles not modelled yet. Trusted: TLC, HiGHS (presolve off for MIP), SCIP.'),
+    'C03': dict(engine='tlc-eaosolve', technique='TLC decides, for every recorded optimize() call, whether the recorded response is an enabled action of the EAOSolve specification (feasibility by row class, value, optimality / infeasibility by lattice enumeration)', cat='model_checking', ref='DESIGN.md 4 (C03), 2.4',
+                text='Real OptimProblem.optimize calls on tiny integral programs (all four row classes, booleans with non-0/1 bounds, duplicated mapping rows, infeasible programs, split concatenation) with every installed solver are recorded; TLC enumerates the lattice of each program and checks that a reported solution satisfies bounds / rows by class / booleans, that value = -c.x, that no lattice point is better, and that a reported failure comes with an empty feasible set.',
+                note='Programs have integral polytopes (interval rows) or integer variables so lattice enumeration is exact; ortools/CPLEX not installed; trusted: TLC.'),
 }
 
 ENGINES = [
     dict(name='tlc-eaomodel', path='spec/EAOModel.tla', serves_properties=sorted(k for k, v in CHECKS.items() if v['engine'] == 'tlc-eaomodel'),
          kind_free_text='TLA+ reference semantics (EAOGuards + EAOModel) enumerated exhaustively by TLC with all invariants; behaviours replayed into the assembled problem (HiGHS oracle); implementation traces validated in batches by Trace_EAOModel'),
+    dict(name='tlc-unitcommit', path='spec/EAOUnitCommit.tla', serves_properties=['C06'],
+         kind_free_text='TLA+ automaton of Plant/CHP unit commitment (EAOUCGuards, EAOUnitCommit, Trace_EAOUnitCommit) enumerated by TLC; patterns/behaviours replayed into the real MIP; optimised runs trace-validated'),
+    dict(name='tlc-eaosolve', path='spec/EAOSolve.tla', serves_properties=['C03'],
+         kind_free_text='TLA+ contract of the optimiser (ReturnSolution / ReturnFailure / ReturnInaccurate enabledness) evaluated by TLC on recorded calls'),
 ]
 
 NOT_APPLICABLE = []
